@@ -31,6 +31,67 @@ prop("C11", True,
      "Generated-input search; each case is judged on pinned behaviour first; a carried-index/header mismatch is re-executed with the swap repair on and only counts as the known finding D7 if it disappears, otherwise it is reported. Primary-index mismatches are always reported.",
      "swap-repair hook used for attribution only; known finding listed in KNOWN_FINDINGS.txt")
 
+prop("C04", True,
+     "property-based testing: proptest generation of text pairs from an atom grammar (+ small enumeration) against a byte-exact reconstruction round trip and an index-sequence oracle",
+     "Generated-input search over texts x 5 tokenizers x 3 algorithms x {str,[u8]} incl. invalid UTF-8, CR/LF mixes and sizes straddling 100 tokens; the oracle concatenates change values and compares with the inputs byte for byte and checks the index discipline of every change.",
+     "texts are built from a fixed atom alphabet; bounded sizes")
+prop("C05", True,
+     "property-based testing: enumeration + proptest generation of line texts against an independently written unified-diff reader and strict patch applier (round trip), plus differentials Display/to_writer/per-hunk/quick-function; known finding attributed by re-execution with the swap-repair hook",
+     "Every rendered diff is parsed by an independent reader and applied strictly to old; result must be new byte for byte; header counts/starts, ordering, context radius, marker placement, empty output for equal inputs and the writer/Display relations are checked. Header-only failures are re-executed with the swap repair on and count as known finding D7 only if they vanish.",
+     "reader/applier are the trusted base; newline_terminated(false) overrides are outside the stated domain")
+prop("C06", True,
+     "property-based testing: bounded-exhaustive enumeration over a 13-atom alphabet + proptest generation (atoms, invalid UTF-8 fragments, biased raw bytes) against reference tokenizers and a pointer-level partition oracle; str/[u8] differential",
+     "All six tokenizers on str and [u8]: tokens must be non-empty consecutive sub-slices covering the input (pointer arithmetic), equal to reference splitters for lines/words/lines_and_newlines, single scalars for chars, and identical between str and [u8] on valid UTF-8. Exhaustive for all strings of <= 4 (5) atoms.",
+     "reference splitters are the trusted base; unicode segmentation is only required to be a lossless partition")
+prop("C07", True,
+     "fault enumeration with property-based generation: for every generated input every deadline-probe index k (virtual clock hook) is executed against the C01/C02/C09 oracles, a post-expiry comparison counter, metamorphic relations (never-expiring == none, k>=T == none) and plumbing differentials",
+     "The harness owns time: the k-th deadline probe reports expiry. For each input all k in 0..=T (T<=64) or a sample are executed; validity, finish-once, promptness (<= 4(N+M)+16 comparisons after expiry), equality with no deadline when not reached, plumbing through TextDiffConfig::deadline/timeout and capture_diff_slices_deadline, and the real clock at its two extremes are checked.",
+     "probe-indexed time: a change that only probes less often is invisible; promptness constant calibrated with >= 4x head-room", "fault_enumeration")
+prop("C08", True,
+     "fault enumeration with property-based generation: for every generated (input, algorithm, adapter stack, hook flavour) every hook-call index is made to fail; oracle = prefix relation with the success log, exact error value, finish-once-and-last",
+     "A recording hook fails at call k for every k of the success log, through 6 adapter stacks and both replace flavours; the diff must return exactly Err(k) with no further call, the calls seen must be a prefix of the success log; finish exactly once and last; NoFinishHook and &mut forwarding and default replace expansion are checked differentially.",
+     "error identity is checked by value (the call index)", "fault_enumeration")
+prop("C10", True,
+     "property-based testing over histories: exhaustive DFS over all valid edit scripts of small pairs + proptest-generated scripts (choice list + interpreter, shrunk as one value) pushed through Compact/Replace; oracle = script validator, cost preservation, normal form, exact carried indices",
+     "Arbitrary valid scripts (not only algorithm output) are the input histories; outputs must stay valid scripts with identical deleted/inserted counts, be complete at finish, be in normal form through both adapters and carry exact indices through Replace alone; no panic (debug assertions on).",
+     "scripts validated by the C01 validator before use (generator self-test => exit 2)")
+prop("C12", True,
+     "property-based testing: enumeration of alternating op lists + proptest generation (run lengths biased to n, 2n, 2n+1) against a reference grouping written from the statement and clause-wise predicates; differential between group_diff_ops, Capture::into_grouped_ops and TextDiff::grouped_ops",
+     "Synthetic and real op lists x radius n: flattened changes preserved, no all-equal group, edge context <= n, interior <= 2n, equality with the reference grouping modulo zero-length Equal ops.",
+     "domain = alternating lists as stated; zero-length Equal ops tolerated")
+prop("C13", True,
+     "property-based testing: enumeration + proptest generation of single ops over injectively valued sequences against an exact expected expansion; differential whole-diff vs per-op iteration",
+     "Every op kind with arbitrary offsets/lengths expands to the exact expected (tag, indices, value) vector; slices agree; apply_to_hook round-trips; TextDiff/UnifiedDiffHunk whole iteration equals concatenated per-op expansion.",
+     "in-bounds by construction")
+prop("C14", True,
+     "property-based testing: proptest generation of texts with token counts on both sides of the 100-token switch; differential oracle TextDiff::ops vs capture_diff_slices over the tokenizer output; IdentifyDistinct id-equality oracle over 5 integer types",
+     "The two code paths of TextDiffConfig::diff (direct / IdentifyDistinct) must both equal the plain sequence diff of the tokens for every tokenizer, algorithm and newline override; IdentifyDistinct ids are equal exactly for equal items and ranges are the caller's.",
+     "differential between two paths of the library plus an independent id-equality check")
+prop("C15", True,
+     "property-based testing: enumeration over a 4-letter alphabet + proptest generation with unique markers against a patience-sorting (LIS) reference",
+     "Counts the unique-common items reported Equal (raw and captured) and compares with the LIS of their positions computed independently; also rejects matching a unique item to a different position.",
+     "no deadline; reference LIS is the trusted base")
+prop("C16", True,
+     "property-based testing: proptest generation of word-level mutated line texts (str and [u8] incl. invalid UTF-8) x inline deadline variants (virtual clock) against a lossless re-split oracle and the plain expansion as reference",
+     "For every op the inline expansion must mirror the plain expansion (tags, indices), segments must concatenate to the line, emphasis only in Delete/Insert changes of Replace ops and never over CR/LF, missing_newline consistent; no panic.",
+     "line-break character = CR/LF; the 500 ms default variant is judged by deadline-independent invariants only")
+prop("C17", True,
+     "property-based testing: enumeration of corner texts + proptest text generation against a pointer-level substring oracle and reconstruction round trip, differential remapper vs slice-wise expansion",
+     "Remapped slices must be the substrings of the original texts at the right offsets, equal to the concatenated tokens, with the tags of slice-wise expansion, and must reconstruct both texts; the six one-call helpers reconstruct, return no empty slice and never panic for every algorithm.",
+     "originals passed to the remapper are the ones diffed")
+prop("C18", True,
+     "property-based testing: proptest generation (candidates derived from the word, cutoffs hit exactly) against a brute-force ranking with an independent LCS",
+     "Result must equal the first n entries of the exhaustive ranking (ratio desc, candidate asc) of candidates with ratio >= cutoff; pre-filters may never drop a qualifying candidate.",
+     "short words: u32 scaling of ratios is injective; f32 expression identical to the documented formula")
+prop("C19", True,
+     "property-based testing with a comparison-counting element type: proptest generation of near-identical/periodic/reversed/unrelated families; oracle = measured comparisons <= c*(N+M+1)*(D+1)",
+     "Work is measured, not timed: PartialEq calls are counted and compared with the documented bound with calibrated constants (4 Myers, 6 Patience; measured maxima reported); runaway executions are aborted by the counter and reported as violations.",
+     "constants calibrated with >= 2.5x head-room; decides 'within c x of O((N+M)D)', not the asymptotic statement")
+prop("C20", True,
+     "property-based testing / metamorphic: repeated and multi-threaded executions with fresh hasher seeds, order-preserving injective relabellings to other types, str vs [u8] differential",
+     "Same inputs => same ops across 9 executions in-thread and 4 fresh threads; relabelled inputs (u64, String) => same ops; str and [u8] text diffs agree for lines/words/chars.",
+     "hasher seeds are not controllable: detection of a hash-order leak is probabilistic per input, near-certain over thousands")
+
 def main():
     checks = []
     na = []
